@@ -4,7 +4,7 @@ ghost.tls_cause: why the SSL object's operation ended (see stubs/async_backend.p
 
 
 def register(R):
-    R.ghost(tls_cause="int")
+    R.ghost(tls_cause="int", tls_ops_returned="int")
     R.assume("OpenSSL raises SSLZeroReturnError only after the peer's close_notify and SSLEOFError when the transport ended without it, "
              "whatever the cut position (this part of C09's quantifier lives in OpenSSL)")
     R.module("easynetwork/lowlevel/_utils.py")
@@ -21,7 +21,7 @@ def register(R):
         modifies=["read_bio.eof", "read_bio.pending", "ghost.IN", "ghost.recv_calls", "ghost.EOF", "ghost.io_errors", "self.buffer.data"],
         tags="C09 C10",
     )
-    mods = ["ghost.tls_cause", "ghost.WIRE", "ghost.IN", "ghost.recv_calls", "ghost.EOF", "ghost.io_errors", "ghost.TLSOUT", "ghost.locks_held",
+    mods = ["ghost.tls_cause", "ghost.tls_ops_returned", "ghost.WIRE", "ghost.IN", "ghost.recv_calls", "ghost.EOF", "ghost.io_errors", "ghost.TLSOUT", "ghost.locks_held",
             "self._read_bio.eof", "self._read_bio.pending", "self._write_bio.eof", "self._write_bio.pending",
             "self._AsyncTLSStreamTransport__transport_send_lock.held_by_me", "self._AsyncTLSStreamTransport__transport_recv_lock.held_by_me",
             "self._AsyncTLSStreamTransport__incoming_reader.buffer.data"]
@@ -29,16 +29,20 @@ def register(R):
         "AsyncTLSStreamTransport._retry_ssl_method",
         params={"ssl_object_method": "fn:stubs.async_backend:ssl_method", "args": "tuple[]"},
         result="obj",
-        loops={1: {"inv": ["not self.__transport_send_lock.held_by_me", "not self.__transport_recv_lock.held_by_me"]}},
+        loops={1: {"inv": ["not self.__transport_send_lock.held_by_me", "not self.__transport_recv_lock.held_by_me", "ghost.locks_held == old(ghost.locks_held)",
+                           "ghost.tls_ops_returned == old(ghost.tls_ops_returned)"]}},
         ensures=[("operation-returned", "ghost.tls_cause == 0", "C09"), ("locks-released", "not self.__transport_send_lock.held_by_me and not self.__transport_recv_lock.held_by_me", "C12")],
         raises={
             "ssl.SSLZeroReturnError": [("only-after-the-peers-close-notify", "ghost.tls_cause == 1", "C09")],
             "ssl.SSLEOFError": [("transport-ended-without-close-notify", "ghost.tls_cause == 2", "C09")],
             "ssl.SSLError": [("other-tls-failure", "ghost.tls_cause == 3 or ghost.tls_cause == 4", "C09")],
-            "BaseException": [("locks-released", "not self.__transport_send_lock.held_by_me and not self.__transport_recv_lock.held_by_me", "C12")],
+            "BaseException": [("locks-released", "not self.__transport_send_lock.held_by_me and not self.__transport_recv_lock.held_by_me", "C12"),
+                              ("the-result-of-a-completed-operation-is-never-discarded: a failed or cancelled call has not taken anything out of the SSL object",
+                               "ghost.tls_ops_returned == old(ghost.tls_ops_returned)", "C10")],
         },
         requires=[("locks-free", "not self.__transport_send_lock.held_by_me and not self.__transport_recv_lock.held_by_me")],
         modifies=mods,
+        env={"trace_branches": ["pending"]},
         tags="C09 C12",
     )
     sc = "self._standard_compatible"
@@ -88,7 +92,7 @@ def register_sync(R):
                  ("truncation-in-standard-compatible-mode-is-never-a-normal-return", f"not (ghost.tls_cause == 2 and {sc})", "C09")],
         raises={"ssl.SSLZeroReturnError": [("the-peers-close-notify-is-reported-as-end-of-stream-not-as-an-error", "False", "C09")],
                 "BaseException": [("error-or-would-block", "True")]},
-        modifies=["ghost.tls_cause"], tags="C09",
+        modifies=["ghost.tls_cause", "ghost.tls_ops_returned"], tags="C09",
     )
     R.contract(
         "SSLStreamTransport.recv_noblock_into",
@@ -97,7 +101,7 @@ def register_sync(R):
                  ("truncation-in-standard-compatible-mode-is-never-a-normal-return", f"not (ghost.tls_cause == 2 and {sc})", "C09")],
         raises={"ssl.SSLZeroReturnError": [("the-peers-close-notify-is-reported-as-end-of-stream-not-as-an-error", "False", "C09")],
                 "BaseException": [("error-or-would-block", "True")]},
-        modifies=["ghost.tls_cause", "buffer"], tags="C09",
+        modifies=["ghost.tls_cause", "ghost.tls_ops_returned", "buffer"], tags="C09",
     )
 
     R.contract(
